@@ -568,7 +568,7 @@ theorem cropProduction_ok (c : CropIn K) (G R F : Nat → K) :
         · rw [List.map_map]; apply List.map_congr_left; intro i hi
           have : ¬ hd ≤ i := by have := List.mem_range.mp hi; omega
           simp [this]
-        · apply List.map_congr_left; intro i hi
+        · rw [List.map_map]; apply List.map_congr_left; intro i hi
           simp
       · have hmin : Nat.min hd n = n := Nat.min_eq_right h
         have h0 : n - hd = 0 := by omega
@@ -592,8 +592,36 @@ theorem ghAreaList_ok (n delay : Nat) (limit : K) (hn : 42 ≤ n) :
     length_of_getElem? _ 37 _ (fun i => getElem?_linspace 0 limit 37 i (by norm_num))
   rw [hl, getElem?_linspace 0 limit 37 _ (by norm_num)]
   unfold ghAreaSpec
-  trace_state
-  sorry
+  have h36 : (((37 - 1 : Nat) : K)) = 36.0 := by norm_num
+  rcases Nat.lt_or_ge j n with hjn | hjn
+  · rw [if_pos hjn, if_pos hjn]
+    rcases Nat.lt_or_ge j (delay + 5) with h5 | h5
+    · have h42 : j < delay + 5 + 37 := by omega
+      rw [if_pos h42, if_pos h5, if_pos h5]
+      rcases Nat.lt_or_ge j delay with hd | hd
+      · rw [if_pos hd, if_pos hd]
+      · have : j - delay < 5 := by omega
+        rw [if_neg (by omega), if_pos this]
+    · have hn5 : ¬ j < delay + 5 := by omega
+      rcases Nat.lt_or_ge j (delay + 5 + 36) with h41 | h41
+      · have h42 : j < delay + 5 + 37 := by omega
+        have h37 : j - (delay + 5) < 37 := by omega
+        rw [if_pos h42, if_neg hn5, if_pos h37, if_neg hn5, if_pos h41, h36, sub_zero, add_zero]
+      · have hn41 : ¬ j < delay + 5 + 36 := by omega
+        rcases Nat.lt_or_ge j (delay + 5 + 37) with h42 | h42
+        · have h37 : j - (delay + 5) < 37 := by omega
+          rw [if_pos h42, if_neg hn5, if_pos h37, if_neg hn5, if_neg hn41, h36]
+          congr 1
+          have : ((j - (delay + 5) : Nat) : K) = 36 := by
+            have : j - (delay + 5) = 36 := by omega
+            rw [this]; norm_num
+          rw [this]; norm_num
+          field_simp
+        · have hn42 : ¬ j < delay + 5 + 37 := by omega
+          have : j - (delay + 5 + 37) < n - 42 := by omega
+          rw [if_neg hn42, if_pos this, if_neg hn5, if_neg hn41]
+  · have : ¬ j < n := by omega
+    rw [if_neg this, if_neg this]
 
 /-- inputs of the greenhouse series in the well-formed range -/
 structure GhWF (n : Nat) (g : GhIn K) : Prop where
@@ -642,5 +670,288 @@ theorem ghMonth_ok (pow : K → K → K) (hp : PowOK pow) (c : CropIn K) (w : Cr
   show (if monthly * ratioYearSpec c i ≤ (if 1 < ratioYearSpec c i then monthly * ratioYearSpec c i
       else monthly * pow (ratioYearSpec c i) (expSpec c)) then _ else _) = _
   rw [heq, if_pos hle]
+
+
+/-- the shape of the object `calculate_monthly_production` leaves behind (see `monthlyProduction_ok`) -/
+def cropState (pow : K → K → K) (c : CropIn K) : CropState K :=
+  ⟨monthsCycle c.startMonth c.baseline c.season,
+   allMonthsReductions (year1Spec (ratioAt c.ratios 0) c.season c.country) (ratioAt c.ratios),
+   expSpec c, (List.range c.nmonths).map (grownSpec pow c), (List.range c.nmonths).map (noRelocSpec c)⟩
+
+theorem noCropland_iff (g : GhIn K) : noCropland g ↔ ghTotal g = 0 := by
+  unfold noCropland
+  constructor
+  · intro h; exact le_antisymm h.1 h.2
+  · intro h; rw [h]; exact ⟨le_rfl, le_rfl⟩
+
+theorem greenhouse_ok (pow : K → K → K) (hp : PowOK pow) (c : CropIn K) (w : CropWF c) (g : GhIn K)
+    (wg : GhWF c.nmonths g) (st : Option (CropState K))
+    (hst : g.addGreenhouses = true → st = some (cropState pow c)) :
+    greenhouse pow c.nmonths g c.waste st = .ok
+      ⟨(List.range c.nmonths).map (ghAreaSpec' g), (List.range c.nmonths).map (ghFractionSpec g),
+       (List.range c.nmonths).map (ghYieldSpec pow c g), (List.range c.nmonths).map (ghCropsSpec pow c g)⟩ := by
+  unfold greenhouse
+  have htot : g.globalCropArea * g.cropAreaFraction = ghTotal g := rfl
+  simp only [htot]
+  by_cases hz : noCropland g
+  · have hz' : ghTotal g ≤ 0 ∧ 0 ≤ ghTotal g := hz
+    have hf : g.cropAreaFraction ≤ 0 ∧ 0 ≤ g.cropAreaFraction := by rw [wg.frac hz]; exact ⟨le_rfl, le_rfl⟩
+    rw [if_pos hz', if_pos hf, replicate_eq_map_range]
+    have hcond : ¬ (g.addGreenhouses = true ∧ ¬ noCropland g) := fun h => h.2 hz
+    congr 2 <;> (apply List.map_congr_left; intro i _)
+    · unfold ghAreaSpec'; rw [if_neg hcond]
+    · unfold ghFractionSpec; rw [if_neg hcond]
+    · unfold ghYieldSpec; rw [if_neg hcond]
+    · unfold ghCropsSpec ghYieldSpec; rw [if_neg hcond, zero_mul]
+  · have hz' : ¬ (ghTotal g ≤ 0 ∧ 0 ≤ ghTotal g) := hz
+    have hpos : 0 < ghTotal g := lt_of_le_of_ne wg.total_nonneg (fun h => hz ((noCropland_iff g).mpr h.symm))
+    rw [if_neg hz']
+    cases hadd : g.addGreenhouses
+    · simp only [Bool.false_eq_true, if_false, replicate_eq_map_range, List.map_map]
+      have hcond : ¬ (g.addGreenhouses = true ∧ ¬ noCropland g) := by rw [hadd]; simp
+      congr 2 <;> (apply List.map_congr_left; intro i _)
+      · unfold ghAreaSpec'; rw [if_neg hcond]
+      · unfold ghFractionSpec; rw [if_neg hcond]; simp
+      · unfold ghYieldSpec; rw [if_neg hcond]
+      · unfold ghCropsSpec ghYieldSpec; rw [if_neg hcond, zero_mul]
+    · have hcond : g.addGreenhouses = true ∧ ¬ noCropland g := ⟨hadd, hz⟩
+      have h42 : 42 ≤ c.nmonths := wg.horizon hadd hz
+      rw [hst hadd]
+      simp only [if_true, cropState, List.length_map, List.length_range]
+      have h1 : ¬ c.nmonths < 42 := by omega
+      have h2 : ¬ (allMonthsReductions (year1Spec (ratioAt c.ratios 0) c.season c.country)
+          (ratioAt c.ratios)).length < c.nmonths := by
+        rw [length_allMonthsReductions]; have := w.horizon; omega
+      rw [if_neg h1]
+      simp only [hpos, not_true_eq_false, if_false, h2]
+      have hmon : 0 ≤ lsum (monthsCycle c.startMonth c.baseline c.season) / 12.0 / ghTotal g := by
+        apply div_nonneg _ hpos.le
+        apply div_nonneg (lsum_nonneg _ (cycle_nonneg c w.season_nonneg w.baseline))
+        norm_num
+      rw [mapE_ok _ (fun i => lsum (monthsCycle c.startMonth c.baseline c.season) / 12.0 / ghTotal g
+          * relocGain pow (expSpec c) (ratioYearSpec c i)) _
+        (fun i hi => ghMonth_ok pow hp c w _ hmon i (by have := List.mem_range.mp hi; have := w.horizon; omega))]
+      simp only [List.map_map, take_map_range, Nat.min_self, ghAreaList_ok _ _ _ h42, zipWith_map_range]
+      congr 2 <;> (apply List.map_congr_left; intro i _)
+      · unfold ghAreaSpec' ghLimit; rw [if_pos hcond]
+      · unfold ghFractionSpec ghLimit; rw [if_pos hcond]; rfl
+      · unfold ghYieldSpec; rw [if_pos hcond]; rfl
+      · unfold ghCropsSpec ghYieldSpec ghAreaSpec' ghLimit; rw [if_pos hcond, if_pos hcond]; rfl
+
+/-- **the refinement theorem for crops and greenhouses**: `init_outdoor_crops` followed by
+    `init_greenhouse_params` returns, for every horizon, exactly the closed-form series -/
+theorem cropsAndGreenhouses_ok (pow : K → K → K) (hp : PowOK pow) (c : CropIn K) (w : CropWF c) (g : GhIn K)
+    (wg : GhWF c.nmonths g) (hrun : c.addOutdoor = true ∨ g.addGreenhouses = true) :
+    cropsAndGreenhouses pow c g = .ok
+      ⟨(List.range c.nmonths).map (grownSpec pow c), (List.range c.nmonths).map (noRelocSpec c),
+       ⟨(List.range c.nmonths).map (ghAreaSpec' g), (List.range c.nmonths).map (ghFractionSpec g),
+        (List.range c.nmonths).map (ghYieldSpec pow c g), (List.range c.nmonths).map (ghCropsSpec pow c g)⟩,
+       (List.range c.nmonths).map (productionSpec pow c (ghFractionSpec g))⟩ := by
+  unfold cropsAndGreenhouses
+  rw [if_pos hrun, monthlyProduction_ok pow hp c w]
+  simp only
+  have hg := greenhouse_ok pow hp c w g wg (some (cropState pow c)) (fun _ => rfl)
+  unfold cropState at hg
+  rw [hg]
+  simp only [List.length_map, List.length_range, ne_eq, not_true_eq_false, and_false, if_false]
+  rw [cropProduction_ok]
+  congr 2
+
+
+/-- neither outdoor growing nor greenhouses: everything handed on is zero -/
+theorem cropsAndGreenhouses_off (pow : K → K → K) (hp : PowOK pow) (c : CropIn K) (w : CropWF c) (g : GhIn K)
+    (wg : GhWF c.nmonths g) (h1 : c.addOutdoor = false) (h2 : g.addGreenhouses = false) :
+    cropsAndGreenhouses pow c g = .ok
+      ⟨[], [],
+       ⟨(List.range c.nmonths).map (ghAreaSpec' g), (List.range c.nmonths).map (ghFractionSpec g),
+        (List.range c.nmonths).map (ghYieldSpec pow c g), (List.range c.nmonths).map (ghCropsSpec pow c g)⟩,
+       (List.range c.nmonths).map (productionSpec pow c (ghFractionSpec g))⟩ := by
+  unfold cropsAndGreenhouses
+  have hrun : ¬ (c.addOutdoor = true ∨ g.addGreenhouses = true) := by rw [h1, h2]; simp
+  rw [if_neg hrun]
+  simp only
+  rw [greenhouse_ok pow hp c w g wg none (fun h => by rw [h2] at h; exact absurd h (by simp))]
+  simp only [h1, Bool.false_eq_true, false_and, if_false]
+  congr 2
+  unfold cropProduction
+  simp only [h1, Bool.false_eq_true, if_false, replicate_eq_map_range, List.map_map]
+  apply List.map_congr_left; intro i _
+  unfold productionSpec
+  simp [h1]
+
+/-! ### pointwise facts about the closed forms: sign, ramps, relocation, expansion, scaling -/
+
+theorem rampFn_ge_one (N total : Nat) (maxv : K) (i : Nat) (hm : 1 ≤ maxv) : 1 ≤ rampFn N total maxv i := by
+  unfold rampFn
+  split_ifs with h1 h2
+  · exact hm
+  · have hNt : N < total := by omega
+    have hpos : (0 : K) < (total : K) - (N : K) := by
+      have : (N : K) < (total : K) := by exact_mod_cast hNt
+      linarith
+    have h0 : (0 : K) ≤ ((i - N : Nat) : K) := Nat.cast_nonneg _
+    have : 0 ≤ ((i - N : Nat) : K) * ((maxv - 1) / ((total : K) - (N : K))) :=
+      mul_nonneg h0 (div_nonneg (by linarith) hpos.le)
+    linarith
+  · exact le_rfl
+
+theorem rampFn_le_max (N total : Nat) (maxv : K) (i : Nat) (hm : 1 ≤ maxv) : rampFn N total maxv i ≤ maxv := by
+  unfold rampFn
+  split_ifs with h1 h2
+  · exact le_rfl
+  · have hNt : N < total := by omega
+    have hpos : (0 : K) < (total : K) - (N : K) := by
+      have : (N : K) < (total : K) := by exact_mod_cast hNt
+      linarith
+    have hle : ((i - N : Nat) : K) ≤ (total : K) - (N : K) := by
+      have h3 : i - N ≤ total - N := by omega
+      have h4 : ((i - N : Nat) : K) ≤ ((total - N : Nat) : K) := by exact_mod_cast h3
+      rw [Nat.cast_sub hNt.le] at h4
+      exact h4
+    have : ((i - N : Nat) : K) * ((maxv - 1) / ((total : K) - (N : K))) ≤ maxv - 1 := by
+      rw [mul_div_assoc']
+      rw [div_le_iff₀ hpos]
+      nlinarith
+    linarith
+  · exact hm
+
+theorem rampFn_mono (N total : Nat) (maxv : K) (i j : Nat) (hij : i ≤ j) (hm : 1 ≤ maxv) :
+    rampFn N total maxv i ≤ rampFn N total maxv j := by
+  by_cases hj : total ≤ j
+  · have : rampFn N total maxv j = maxv := by unfold rampFn; rw [if_pos hj]
+    rw [this]; exact rampFn_le_max N total maxv i hm
+  · by_cases hi : N ≤ i
+    · have hNt : N < total := by omega
+      have hpos : (0 : K) < (total : K) - (N : K) := by
+        have : (N : K) < (total : K) := by exact_mod_cast hNt
+        linarith
+      have e1 : rampFn N total maxv i = 1 + ((i - N : Nat) : K) * ((maxv - 1) / ((total : K) - (N : K))) := by
+        unfold rampFn; rw [if_neg (by omega), if_pos hi]
+      have e2 : rampFn N total maxv j = 1 + ((j - N : Nat) : K) * ((maxv - 1) / ((total : K) - (N : K))) := by
+        unfold rampFn; rw [if_neg hj, if_pos (by omega)]
+      rw [e1, e2]
+      have h3 : ((i - N : Nat) : K) ≤ ((j - N : Nat) : K) := by
+        have : i - N ≤ j - N := by omega
+        exact_mod_cast this
+      have : 0 ≤ (maxv - 1) / ((total : K) - (N : K)) := div_nonneg (by linarith) hpos.le
+      nlinarith
+    · have : rampFn N total maxv i = 1 := by unfold rampFn; rw [if_neg (by omega), if_neg hi]
+      rw [this]; exact rampFn_ge_one N total maxv j hm
+
+theorem areaRampSpec_ge_one (c : CropIn K) (i : Nat) : 1 ≤ areaRampSpec c i := by
+  rw [areaRampSpec_eq]
+  split_ifs with h
+  · exact rampFn_ge_one _ _ _ _ h.le
+  · exact le_rfl
+
+theorem ghAreaSpec_nonneg (delay : Nat) (limit : K) (i : Nat) (hl : 0 ≤ limit) : 0 ≤ ghAreaSpec delay limit i := by
+  unfold ghAreaSpec
+  split_ifs
+  · exact le_rfl
+  · have : (36.0 : K) = 36 := by norm_num
+    rw [this]
+    exact mul_nonneg (Nat.cast_nonneg _) (div_nonneg hl (by norm_num))
+  · exact hl
+
+theorem ghAreaSpec_le (delay : Nat) (limit : K) (i : Nat) (hl : 0 ≤ limit) : ghAreaSpec delay limit i ≤ limit := by
+  unfold ghAreaSpec
+  split_ifs with h1 h2
+  · exact hl
+  · have h36 : (36.0 : K) = 36 := by norm_num
+    rw [h36]
+    have h3 : ((i - (delay + 5) : Nat) : K) ≤ 36 := by
+      have : i - (delay + 5) ≤ 36 := by omega
+      exact_mod_cast this
+    have : ((i - (delay + 5) : Nat) : K) * (limit / 36) ≤ 36 * (limit / 36) :=
+      mul_le_mul_of_nonneg_right h3 (div_nonneg hl (by norm_num))
+    have e : (36 : K) * (limit / 36) = limit := by field_simp
+    linarith
+  · exact le_rfl
+
+theorem ghAreaSpec_zero (delay : Nat) (limit : K) (i : Nat) (h : i < delay + 5) : ghAreaSpec delay limit i = 0 := by
+  unfold ghAreaSpec; rw [if_pos h]
+
+theorem ghAreaSpec_mono (delay : Nat) (limit : K) (i j : Nat) (hij : i ≤ j) (hl : 0 ≤ limit) :
+    ghAreaSpec delay limit i ≤ ghAreaSpec delay limit j := by
+  by_cases hj : j < delay + 5 + 36
+  · by_cases hi : i < delay + 5
+    · rw [ghAreaSpec_zero delay limit i hi]; exact ghAreaSpec_nonneg delay limit j hl
+    · have e1 : ghAreaSpec delay limit i = ((i - (delay + 5) : Nat) : K) * (limit / 36.0) := by
+        unfold ghAreaSpec; rw [if_neg hi, if_pos (by omega)]
+      have e2 : ghAreaSpec delay limit j = ((j - (delay + 5) : Nat) : K) * (limit / 36.0) := by
+        unfold ghAreaSpec; rw [if_neg (by omega), if_pos hj]
+      rw [e1, e2]
+      have h3 : ((i - (delay + 5) : Nat) : K) ≤ ((j - (delay + 5) : Nat) : K) := by
+        have : i - (delay + 5) ≤ j - (delay + 5) := by omega
+        exact_mod_cast this
+      have h36 : (36.0 : K) = 36 := by norm_num
+      rw [h36]
+      exact mul_le_mul_of_nonneg_right h3 (div_nonneg hl (by norm_num))
+  · have : ghAreaSpec delay limit j = limit := by
+      unfold ghAreaSpec; rw [if_neg (by omega), if_neg hj]
+    rw [this]; exact ghAreaSpec_le delay limit i hl
+
+theorem ghAreaSpec_full (delay : Nat) (limit : K) (i : Nat) (h : delay + 5 + 36 ≤ i) : ghAreaSpec delay limit i = limit := by
+  unfold ghAreaSpec; rw [if_neg (by omega), if_neg (by omega)]
+
+theorem ghLimit_nonneg (g : GhIn K) (ht : 0 ≤ ghTotal g) (hm : 0 ≤ g.areaMultiplier) : 0 ≤ ghLimit g :=
+  mul_nonneg ht hm
+
+theorem ghFractionSpec_range (g : GhIn K) (i : Nat) (ht : 0 ≤ ghTotal g) (hm0 : 0 ≤ g.areaMultiplier)
+    (hm1 : g.areaMultiplier ≤ 1) : 0 ≤ ghFractionSpec g i ∧ ghFractionSpec g i ≤ 1 := by
+  unfold ghFractionSpec
+  split_ifs with h
+  · have hpos : 0 < ghTotal g := lt_of_le_of_ne ht (fun h0 => h.2 ((noCropland_iff g).mpr h0.symm))
+    have hl := ghLimit_nonneg g ht hm0
+    constructor
+    · exact div_nonneg (ghAreaSpec_nonneg _ _ _ hl) hpos.le
+    · rw [div_le_one hpos]
+      calc ghAreaSpec g.delay (ghLimit g) i ≤ ghLimit g := ghAreaSpec_le _ _ _ hl
+        _ = ghTotal g * g.areaMultiplier := rfl
+        _ ≤ ghTotal g * 1 := mul_le_mul_of_nonneg_left hm1 ht
+        _ = ghTotal g := mul_one _
+  · exact ⟨le_rfl, zero_le_one⟩
+
+theorem wasteFactor_nonneg (w : K) (hw : w ≤ 100) : 0 ≤ 1 - w / 100.0 := by
+  rw [sci_100]
+  have : w / 100 ≤ 1 := by rw [div_le_one (by norm_num)]; exact hw
+  linarith
+
+theorem grownSpec_nonneg (pow : K → K → K) (hp : PowOK pow) (c : CropIn K) (w : CropWF c) (i : Nat) :
+    0 ≤ grownSpec pow c i := by
+  unfold grownSpec
+  exact mul_nonneg (mul_nonneg (monthSpec_nonneg c i w.season_nonneg w.baseline)
+    (relocGain_nonneg pow hp _ _ (expSpec_range c w) (ratioYearSpec_nonneg c i)))
+    (le_trans zero_le_one (areaRampSpec_ge_one c i))
+
+theorem noRelocSpec_nonneg (c : CropIn K) (w : CropWF c) (i : Nat) : 0 ≤ noRelocSpec c i :=
+  mul_nonneg (monthSpec_nonneg c i w.season_nonneg w.baseline) (ratioYearSpec_nonneg c i)
+
+theorem noReloc_le_grown (pow : K → K → K) (hp : PowOK pow) (c : CropIn K) (w : CropWF c) (i : Nat) :
+    noRelocSpec c i ≤ grownSpec pow c i := by
+  unfold grownSpec noRelocSpec
+  have hm := monthSpec_nonneg c i w.season_nonneg w.baseline
+  have hr := ratioYearSpec_nonneg c i
+  have hg := le_relocGain pow hp (expSpec c) _ (expSpec_range c w) hr
+  have ha := areaRampSpec_ge_one c i
+  have h1 : monthSpec c i * ratioYearSpec c i ≤ monthSpec c i * relocGain pow (expSpec c) (ratioYearSpec c i) :=
+    mul_le_mul_of_nonneg_left hg hm
+  have h2 : 0 ≤ monthSpec c i * relocGain pow (expSpec c) (ratioYearSpec c i) :=
+    mul_nonneg hm (le_trans hr hg)
+  nlinarith
+
+theorem grownEffSpec_nonneg (pow : K → K → K) (hp : PowOK pow) (c : CropIn K) (w : CropWF c) (i : Nat) :
+    0 ≤ grownEffSpec pow c i := by
+  unfold grownEffSpec
+  split_ifs
+  · exact grownSpec_nonneg pow hp c w i
+  · exact noRelocSpec_nonneg c w i
+
+theorem productionSpec_nonneg (pow : K → K → K) (hp : PowOK pow) (c : CropIn K) (w : CropWF c) (ghf : Nat → K)
+    (i : Nat) (hf : ghf i ≤ 1) (hw : c.waste ≤ 100) : 0 ≤ productionSpec pow c ghf i := by
+  unfold productionSpec
+  split_ifs
+  · exact mul_nonneg (mul_nonneg (grownEffSpec_nonneg pow hp c w i) (by linarith)) (wasteFactor_nonneg _ hw)
+  · exact le_rfl
 
 end Allfed.Proofs.Supply
